@@ -1124,6 +1124,42 @@ def check_opes(run, exe, model, cases, scratch):
 
 
 # ==========================================================================================
+# shared ABF walkers whose grids differ in size: must be refused, not combined
+# ==========================================================================================
+
+def check_different_grids(run, exe, scratch):
+    for (nb0, nb1) in ((4, 5), (5, 4)):
+        dirs = []
+        for i in range(2):
+            d = os.path.join(scratch, "dg%d" % i)
+            if os.path.exists(d):
+                import shutil as _sh
+                _sh.rmtree(d, ignore_errors=True)
+            os.makedirs(d)
+            dirs.append(d)
+        run.count("different-grids:%d/%d" % (nb0, nb1), True)
+        run.dist("abf:different-grids")
+        try:
+            with W.Team(exe, 2, dirs, timeout_ms=3000) as T:
+                T.all_do(lambda i: scen.abf_setup({"nd": 1, "nbins": [nb0 if i == 0 else nb1], "freq": 2}), 20)
+                res = None
+                for t in range(3):
+                    res = T.all_do(lambda i: ["pos 1 0 0 %s" % float(0.5 + t).hex(), "eforce 1 0 0 0x1p+0", "step", "errtext", "dumpshared a"], 30)
+                errs = [[x for x in r if x.startswith("STEP")][0] for r in res]
+                d0 = scen.parse_shared(res[0])
+        except W.WalkerTimeout as e:
+            run.violation("abf:different-grids-hang", "two shared-ABF walkers with %d and %d bins: a walker stopped answering at the exchange (%s)" % (nb0, nb1, str(e)[:120]),
+                          {"kind": "different-grids", "nbins": [nb0, nb1]})
+            continue
+        # the exchange of step 2 must fail with an error on at least one side, and replica 0 must not have combined anything:
+        # its counts are its own two samples (steps 1 and 2)
+        if all("err=ok" in e for e in errs) or sum(d0["cnt"]) != 2:
+            run.violation("abf:different-grids-combined", "two shared-ABF walkers with %d and %d bins exchanged at step 2 without an error (%s) or replica 0 "
+                          "combined data of a different grid (its counts %s; it sampled twice)" % (nb0, nb1, errs, d0["cnt"]),
+                          {"kind": "different-grids", "nbins": [nb0, nb1]})
+
+
+# ==========================================================================================
 # the order of the two halves of write_state_to_replicas, as the operating system sees it
 # ==========================================================================================
 
@@ -1201,6 +1237,7 @@ def check(run):
                        "2-4 real walker processes and on the extracted model; distinct = distinct event list + frequencies")
     try:
         check_rewrite_order(run, exe, scratch)
+        check_different_grids(run, exe, scratch)
         run_cases(run, exe, model, load_corpus(), scratch)
         na, nm, nv, nr = (60, 45, 30, 12) if quick else (1500, 1200, 800, 300)
         big = not quick      # more than four walkers: thorough tier only
